@@ -115,12 +115,20 @@ def run(ctx):
     # ------------------------------------------------------------------ P1 grammar
     X = peg.Extractor(f, FP)
     rules = {}
+    missing = []
     for name in REFERENCE:
         p = FP + name
         if p not in f.hir:
-            ctx.fail('anchor-missing', 'grammar function ' + name, '', 'filter.rs has no function ' + name); continue
+            missing.append(name); continue
         ctx.analysed['bodies'].add(p)
         rules[p] = X.fn_grammar(p)
+    # parser functions that are not in the reference by name (a rule split off or merged by a refactor)
+    for p, h in f.hir.items():
+        if p.startswith(FP) and p not in rules and '::' not in p[len(FP):] and h.get('kind') == 'Fn':
+            it = f.items.get(p) or {}
+            if 'nom::' in str(it.get('output') or '') or 'IResult' in str(it.get('output') or ''):
+                rules[p] = X.fn_grammar(p)
+                ctx.analysed['bodies'].add(p)
     # classes first (P2), because grammar comparison maps predicate -> class name
     classmap = {}
     for cname, desc in X.classes.items():
@@ -132,11 +140,36 @@ def run(ctx):
                     ('%d bytes: %s...' % (len(got), sorted(got)[:12])) if got is not None else 'an undetermined set'))
     classmap['digit'] = DIGIT
     ctx.floor('P2', 'byte classes', len(X.classes), 3)
+    structural = {}
     for p, g in rules.items():
         name = p.split('::')[-1]
-        ok, why = peg.equal(g, REFERENCE[name], rules, REFERENCE, classmap)
-        ctx.add('P1.rule', name, loc(f.hir[p]['body']), ok, 'extracted `%s = %s`, reference `%s`: %s' % (name, peg.show(g), peg.show(REFERENCE[name]), why))
-    ctx.floor('P1', 'grammar rules', len(rules), 22)
+        if name in REFERENCE:
+            structural[name] = peg.equal(g, REFERENCE[name], rules, REFERENCE, classmap) + (p, g)
+    if not missing and all(v[0] for v in structural.values()) and len(structural) == len(rules):
+        for name, (ok, why, p, g) in structural.items():
+            ctx.add('P1.rule', name, loc(f.hir[p]['body']), ok, 'extracted `%s = %s`, reference `%s`' % (name, peg.show(g), peg.show(REFERENCE[name])))
+    else:
+        # the function boundaries differ from the reference's rule boundaries: compare the languages (see peg.language)
+        ref_rec = peg.recursive_rules(REFERENCE)
+        ext_rec = peg.recursive_rules(rules, lambda n: n.split('::')[-1])
+        look_ref = lambda n: REFERENCE.get(n)
+        look_ext = lambda n: rules.get(FP + n)
+        for name in sorted({'filtexpr', 'mv_filtexpr'} | ref_rec | ext_rec):
+            p = FP + name
+            where = loc(f.hir[p]['body']) if p in f.hir else ''
+            if name not in REFERENCE or p not in rules:
+                ctx.fail('P1.rule', name, where, 'the recursive structure of the grammar differs: rule `%s` is %s' % (name, 'not in the RFC 4515 reference' if name not in REFERENCE else 'missing from filter.rs'))
+                continue
+            try:
+                lr = peg.language(f, REFERENCE[name], look_ref, ref_rec, None)
+                le = peg.language(f, rules[p], look_ext, ext_rec, classmap)
+            except peg.NoNormalForm as e:
+                ctx.fail('P1.rule', name, where, 'no normal form for `%s` (%s); structural comparison: %s' % (name, e, structural.get(name, (None, 'n/a'))[1])); continue
+            extra, lack = le - lr, lr - le
+            ctx.add('P1.rule', name, where, not extra and not lack,
+                    'the language of `%s` differs from RFC 4515: accepted but not in the reference: %s; in the reference but rejected: %s' % (
+                        name, sorted(peg.show_seq(t) for t in extra)[:4], sorted(peg.show_seq(t) for t in lack)[:4]))
+    ctx.floor('P1', 'grammar rules', len(rules), 20)
     # every local grammar function referenced is covered
     refs = set()
     def collect(g):
